@@ -162,11 +162,22 @@ Theorem C19_subband_seq_is_pyfunc : forall maxdelay nchans nsubs nsamps m k,
 Proof. exact subband_seq. Qed.
 Print Assumptions C19_subband_seq_is_pyfunc.
 
+Theorem C19_mask_channels_seq_is_pyfunc : forall maskvalue nchans nsamps m k,
+  seq_run (mask_channels_threads maskvalue nchans nsamps) m (mask_channels_ID_array, k) =
+  SPP.Gen.Kernels.mask_channels_run (arr_of m mask_channels_ID_array) (arr_of m mask_channels_ID_mask) maskvalue nchans nsamps k.
+Proof. exact mask_channels_seq. Qed.
+Print Assumptions C19_mask_channels_seq_is_pyfunc.
+
+Theorem C19_invert_freq_seq_is_pyfunc : forall nchans nsamps m k,
+  seq_run (invert_freq_threads nchans nsamps) m (invert_freq_ID_outarray, k) =
+  SPP.Gen.Kernels.invert_freq_run (arr_of m invert_freq_ID_outarray) (arr_of m invert_freq_ID_array) nchans nsamps k.
+Proof. exact invert_freq_seq. Qed.
+Print Assumptions C19_invert_freq_seq_is_pyfunc.
+
 (** the set of kernels compiled parallel=True and their parallel loop variables are the ones proved about *)
 Example C19_kernel_set : parallel_kernels =
   ["compute_online_moments"; "compute_online_moments_basic"; "dedisperse"; "downsample_1d_mean_parallel";
-   "downsample_2d_mean_parallel"; "extract_bpass"; "extract_tim"; "invert_freq"; "mask_channels"; "remove_zerodm";
-   "simulate_ism"; "subband"]%string.
+   "downsample_2d_mean_parallel"; "extract_bpass"; "extract_tim"; "invert_freq"; "mask_channels"; "remove_zerodm"; "subband"]%string.
 Proof. reflexivity. Qed.
 
 Example C19_all_parallel :
